@@ -322,7 +322,18 @@ func TestC15Race(t *testing.T) {
 					// a few hot names so that goroutines collide on the same entry
 					name := names[int(x>>33)%8*(len(names)/8)%len(names)]
 					masked := x>>20&1 == 1
-					f, err := of.FindFieldHeaderByName(name, masked)
+					// spelled in a case pattern drawn from the stream: many spellings are looked up for the first time
+					// while other goroutines are inside the registry
+					sp := []byte(name)
+					for bi, pat := 0, x>>7; bi < len(sp); bi, pat = bi+1, pat>>1 {
+						if pat&1 == 1 && sp[bi] >= 'A' && sp[bi] <= 'Z' {
+							sp[bi] += 32
+						}
+						if bi == 40 {
+							pat = x ^ x>>13
+						}
+					}
+					f, err := of.FindFieldHeaderByName(string(sp), masked)
 					if err != nil {
 						continue
 					}
